@@ -4,3 +4,4 @@ import MpdSpec.Grammar
 import MpdSpec.FrameSpec
 import MpdSpec.Listing
 import MpdSpec.FilterParse
+import MpdSpec.Requests
